@@ -7,6 +7,9 @@
 import Driver.Wire
 import DltVerif.Model.Time
 import DltVerif.Model.Fixed
+import DltVerif.Spec.Layout
+import DltVerif.Spec.NonVerbose
+import DltVerif.Spec.WF
 
 namespace Dlt.Ops
 open Dlt.Wire
@@ -60,6 +63,186 @@ def pZts : PRes Bytes → String
 def pEnc (m : Message) : String :=
   if m.asBytesPanics then "PANIC" else s!"{pBytes m.asBytes} blen={m.byteLen}"
 
+/-- coarse outcome class of a parse -/
+def pClass : Except DltError (ParsedMessage × Bytes) → String
+  | .ok (.item _, _) => "ITEM"
+  | .ok (.filteredOut n, _) => s!"FILTERED:{n}"
+  | .ok (.invalid, _) => "INVALID"
+  | .error (.incomplete _) => "INCOMPLETE"
+  | .error .hickup => "HICKUP"
+  | .error .unrecoverable => "UNRECOVERABLE"
+  | .error .panic => "PANIC"
+
+/-- C01: serialise, append the suffix, parse, compare -/
+def rt (m : Message) (sfx : Bytes) : String :=
+  if m.asBytesPanics then "PANIC"
+  else
+    let r := dltMessage (m.asBytes ++ sfx) none m.storageHeader.isSome
+    match r with
+    | .ok (.item m', rest) =>
+      if m' == m && rest == sfx then s!"rt=1 rest={rest.length}"
+      else s!"rt=0 {pParseResult r}"
+    | _ => s!"rt=0 {pParseResult r}"
+
+/-- use of a returned message: re-serialise, measure, validity (C03) -/
+def useMessage (m : Message) : String :=
+  let reser := if m.asBytesPanics then "PANIC" else "ok"
+  let args := match m.payload with | .verbose as => as | _ => []
+  let valid := args.all Argument.valid
+  s!"reser={reser} valid={pBool valid}"
+
+def nopanic (w : Bool) (f : Option ProcessedFilter) (bs : Bytes) : String :=
+  let r := dltMessage bs f w
+  match r with
+  | .ok (.item m, _) => s!"{pClass r} {useMessage m}"
+  | _ => s!"{pClass r} reser=na valid=na"
+
+def pConsume : PRes (Option Nat) → String
+  | .ok none rest => s!"OK none rest={rest.length}"
+  | .ok (some c) rest => s!"OK some {c} rest={rest.length}"
+  | .incomplete _ => "ERR INCOMPLETE"
+  | .error => "ERR HICKUP"
+  | .failure => "ERR UNRECOVERABLE"
+  | .panic => "PANIC"
+
+def pSkipSh : PRes Nat → String
+  | .ok n rest => s!"OK {n} rest={rest.length}"
+  | .incomplete _ => "ERR INCOMPLETE"
+  | .error => "ERR HICKUP"
+  | .failure => "ERR UNRECOVERABLE"
+  | .panic => "PANIC"
+
+def pFwd : Option (Nat × Bytes) → String
+  | none => "none"
+  | some (n, rest) => s!"some {n} rest={rest.length}"
+
+/-- C05: all cut positions of one message; `bad` lists the first offending cuts -/
+def hintOk (missing : Nat) : Option Nat → Bool
+  | none => true
+  | some n => 1 ≤ n && n ≤ missing
+
+def fnv (h : UInt64) (x : Nat) : UInt64 := (h ^^^ UInt64.ofNat x) * 1099511628211
+
+def cutAll (m : Message) : String := Id.run do
+  if m.asBytesPanics then return "PANIC"
+  let bs := m.asBytes
+  let w := m.storageHeader.isSome
+  let n := bs.length
+  let mut bad : List String := []
+  let mut nbad := 0
+  let mut h : UInt64 := 14695981039346656037
+  for k in [0:n] do
+    let pre := bs.take k
+    let r := dltMessage pre none w
+    let okMsg := match r with
+      | .error (.incomplete hint) => hintOk (n - k) hint
+      | _ => false
+    h := fnv h (match r with | .error (.incomplete (some x)) => x + 1 | .error (.incomplete none) => 0 | _ => 999999)
+    let c := dltConsumeMsg pre
+    let okCons :=
+      if !w then true
+      else if k = 0 then (match c with | .ok none _ => true | _ => false)
+      else (match c with | .incomplete hint => hintOk (n - k) hint | _ => false)
+    if !(okMsg && okCons) then
+      nbad := nbad + 1
+      if bad.length < 3 then bad := bad ++ [s!"{k}:{pClass r}:{pConsume c}".replace " " "_"]
+  return s!"len={n} bad={nbad} {bad} @@ fine={h}"
+
+/-- C16: re-serialising a parsed message is stable -/
+def stable (w : Bool) (bs : Bytes) : String :=
+  match dltMessage bs none w with
+  | .ok (.item m, _) =>
+    if m.asBytesPanics then "item PANIC"
+    else
+      let b2 := m.asBytes
+      let lenmatch := b2.length == (if w then 16 else 0) + m.header.overallLength
+      if !lenmatch then "item lenmatch=0"
+      else
+        match dltMessage b2 none w with
+        | .ok (.item m2, rest) =>
+          let st := m2 == m && rest.isEmpty && !m2.asBytesPanics && m2.asBytes == b2
+          s!"item lenmatch=1 stable={pBool st}"
+        | _ => "item lenmatch=1 stable=0"
+  | _ => "na"
+
+def argLen (a : Argument) : String :=
+  let p := if a.asBytesPanics then "PANIC" else "ok"
+  s!"len={a.len} le={(a.asBytes .little).length} be={(a.asBytes .big).length} valid={pBool a.valid} {p}"
+
+def messageConfig : P MessageConfig := do
+  let version ← bv 8
+  let counter ← bv 8
+  let e ← endian
+  let ecu ← opt bytes
+  let sid ← opt (bv 32)
+  let tms ← opt (bv 32)
+  let p ← payload
+  let ext ← opt (do
+    let mt ← messageType
+    let app ← bytes
+    let ctx ← bytes
+    pure ({ messageType := mt, appId := app, contextId := ctx } : ExtendedHeaderConfig))
+  pure { version := version, counter := counter, endianness := e, ecuId := ecu, sessionId := sid,
+         timestamp := tms, payload := p, extendedHeaderInfo := ext }
+
+/-- C15: `Message::new` and the consistency of what it builds -/
+def newMsg (c : MessageConfig) (sh : Option StorageHeader) : String :=
+  let m := Message.new c sh
+  if m.asBytesPanics then "PANIC"
+  else
+    let pl := m.payload.asBytes m.header.endianness
+    let plenOk := m.header.payloadLength.toNat == pl.length
+    let noSh := { m with storageHeader := none }
+    let blenOk := m.byteLen == noSh.asBytes.length
+    let r := dltMessage m.asBytes none m.storageHeader.isSome
+    let back := match r with
+      | .ok (.item m', rest) => m' == m && rest.isEmpty
+      | _ => false
+    s!"{pMessage m} plen_ok={pBool plenOk} blen_ok={pBool blenOk} rt={pBool back}"
+
+def addSh (m : Message) (s us : BitVec 32) : String :=
+  let m2 := m.addStorageHeader { seconds := s, microseconds := us }
+  if m2.asBytesPanics then "PANIC" else pBytes m2.asBytes
+
+/-- C04: where the remainder starts -/
+def pCons : Except DltError (ParsedMessage × Bytes) → String
+  | .ok (.item _, rest) => s!"OK rest={rest.length} kind=item"
+  | .ok (.filteredOut n, rest) => s!"OK rest={rest.length} kind=filtered:{n}"
+  | .ok (.invalid, rest) => s!"OK rest={rest.length} kind=invalid"
+  | .error .panic => "PANIC"
+  | .error _ => "ERR"
+
+/-- the Spec's framing verdict, from the LEN field and HTYP only -/
+def pFraming (w : Bool) (bs : Bytes) : String :=
+  if w then
+    match Spec.storageFraming bs with
+    | .incomplete _ => "incomplete"
+    | .reject => "reject"
+    | .complete skip d =>
+      let body := bs.drop (skip + 16)
+      s!"complete rest={bs.length - (skip + 16 + d)} fl={d - Spec.allHeadersLen (body.headD 0#8)}"
+  else
+    match Spec.framing bs with
+    | .incomplete _ => "incomplete"
+    | .reject => "reject"
+    | .complete d => s!"complete rest={bs.length - d} fl={d - Spec.allHeadersLen (bs.headD 0#8)}"
+
+def pConsumeSpec (bs : Bytes) : String :=
+  if bs.isEmpty then "none"
+  else
+    match Spec.framing (bs.drop 16) with
+    | .complete d => s!"some {16 + d} rest={bs.length - 16 - d}"
+    | _ => "other"
+
+def pCRes : CRes (List Argument) → String
+  | .ok as => s!"OK {as.length}" ++ String.join (as.map fun a => " " ++ pArgument a)
+  | .err => "ERR"
+  | .panic => "PANIC"
+
+def pSpecConstruct : Option (List Argument) → String
+  | some as => s!"OK {as.length}" ++ String.join (as.map fun a => " " ++ pArgument a)
+  | none => "ERR"
+
 def dispatch (op : String) (args : List String) : Except String String :=
   match op with
   | "FROMMS" => do let n ← run nat args; pure (pTime (fromMs n))
@@ -75,6 +258,36 @@ def dispatch (op : String) (args : List String) : Except String String :=
   | "PARSE" => do
     let (w, f, bs) ← run (do let w ← bool; let f ← opt filter; let b ← bytes; pure (w, f, b)) args
     pure (pParseResult (dltMessage bs f w))
+  | "RT" => do
+    let (m, sfx) ← run (do let m ← message; let s ← bytes; pure (m, s)) args
+    pure (rt m sfx ++ " @@ wf=" ++ pBool m.wf)
+  | "NOPANIC" => do
+    let (w, f, bs) ← run (do let w ← bool; let f ← opt filter; let b ← bytes; pure (w, f, b)) args
+    pure (nopanic w f bs)
+  | "CONSUME" => do
+    let bs ← run bytes args
+    pure (pConsume (dltConsumeMsg bs) ++ " @@ spec=" ++ pConsumeSpec bs)
+  | "CONS" => do
+    let (w, f, bs) ← run (do let w ← bool; let f ← opt filter; let b ← bytes; pure (w, f, b)) args
+    pure (pCons (dltMessage bs f w) ++ " @@ spec=" ++ pFraming w bs)
+  | "NVA" => do
+    let (e, tis, d) ← run (do
+      let e ← endian; let n ← nat; let tis ← many typeInfo n; let d ← bytes; pure (e, tis, d)) args
+    pure (pCRes (constructArguments e tis d) ++ " @@ spec=" ++ pSpecConstruct (Spec.construct e tis d))
+  | "SKIPSH" => do let bs ← run bytes args; pure (pSkipSh (skipStorageHeader bs))
+  | "FWD" => do let bs ← run bytes args; pure (pFwd (forwardToNextStorageHeader bs))
+  | "CUTALL" => do let m ← run message args; pure (cutAll m ++ " @@ wf=" ++ pBool m.wf)
+  | "STABLE" => do
+    let (w, bs) ← run (do let w ← bool; let b ← bytes; pure (w, b)) args
+    pure (stable w bs)
+  | "ARGLEN" => do let a ← run argument args; pure (argLen a)
+  | "VALID" => do let a ← run argument args; pure s!"valid={pBool a.valid}"
+  | "NEW" => do
+    let (c, sh) ← run (do let c ← messageConfig; let sh ← opt storageHeader; pure (c, sh)) args
+    pure (newMsg c sh)
+  | "ADDSH" => do
+    let (m, s, us) ← run (do let m ← message; let s ← bv 32; let us ← bv 32; pure (m, s, us)) args
+    pure (addSh m s us)
   | _ => .error s!"unknown op {op}"
 
 def handleLine (line : String) : String :=
